@@ -372,6 +372,8 @@ def gen_history(rng, kind, falsy_p=0.4, max_ops=12):
                 # give such a call a defined place in every subscriber's order)
                 fb = rng.choice([["next", vt.gen_value(rng, falsy_p)], ["next", vt.gen_value(rng, falsy_p)], ["completed"], ["error", "x"]])
                 scripts[str(next_oid)] = {"k": rng.randrange(0, 4), "do": fb}
+            elif rng.random() < 0.05:
+                scripts[str(next_oid)] = {"k": rng.randrange(0, 3), "do": ["dispose"]}  # disposes the subject from inside its k-th notification
             elif rng.random() < 0.2:  # scripted re-entrant reaction of this observer
                 if rng.random() < 0.5:
                     scripts[str(next_oid)] = {"k": rng.randrange(0, 3), "do": ["unsub", rng.choice(subscribed)]}
@@ -397,8 +399,9 @@ def gen_history(rng, kind, falsy_p=0.4, max_ops=12):
         for i in range(len(ops) - 1, 0, -1):
             if rng.random() < 0.3:
                 ops.insert(i, ["advance", rng.choice([5, 10, 10, 20, 30])])
-    if disposed:  # a feed-back into a disposed subject raises inside the subscriber's callback: not part of this model
-        scripts = {k: v for k, v in scripts.items() if v["do"][0] in ("sub", "unsub")}
+    if disposed or any(v["do"][0] == "dispose" for v in scripts.values()):
+        # a feed-back into a disposed subject raises inside the subscriber's callback: not part of this model
+        scripts = {k: v for k, v in scripts.items() if v["do"][0] in ("sub", "unsub", "dispose")}
     return {"kind": kind, "cfg": cfg, "ops": ops, "scripts": scripts}
 
 
@@ -440,6 +443,8 @@ def execute(sc):
         out.probes["reentrant_script"] += 1
     if any(v["do"][0] in ("next", "completed", "error") for v in sc["scripts"].values()):
         out.probes["feedback_script"] += 1
+    if any(v["do"][0] == "dispose" for v in sc["scripts"].values()):
+        out.probes["dispose_from_callback_script"] += 1
     if "dispose" in names:
         out.probes["disposed"] += 1
     if any(x for x in want_raised):
